@@ -49,6 +49,8 @@ RECURSIVE SumSq(_, _, _)
 SumSq(p, q, i) == IF i = 0 THEN 0 ELSE (p[i] - q[i]) * (p[i] - q[i]) + SumSq(p, q, i - 1)
 Dist2(p, q) == SumSq(p, q, Len(p))            \* squared Euclidean distance
 
+IsSquare(n) == \E m \in 0 .. 64 : m * m = n   \* (lattice distances are far below 64^2)
+
 \* the linear scan: distance from q to every stored point, in storage order
 DistSeq(P, q) == [i \in 1 .. Len(P) |-> Dist2(P[i], q)]
 
@@ -148,13 +150,17 @@ QueryRec(q) ==
   [q |-> Act(q), ds |-> D, near |-> Nearest(D),
    knn |-> [i \in DOMAIN Ks |-> KNearest(D, Ks[i])],
    within |-> [i \in DOMAIN Rs |-> Within(D, Rs[i])],
-   inbox |-> InBox(All, q)]
+   inbox |-> InBox(All, q),
+   \* exact: every distance a vantage point tree can meet while answering q (query to
+   \* stored point, stored point to stored point) is an integer, hence exact in floating point
+   exact |-> /\ \A i \in 1 .. Len(D) : IsSquare(D[i])
+             /\ \A i, j \in 1 .. Len(All) : IsSquare(Dist2(All[i], All[j]))]
 
 EmitState ==
   Emit => PrintT(ToJson(
     [k |-> "h", dim |-> Dim, built |-> ActSeq(built), ins |-> ActSeq(ins), n |-> Len(All),
      bounded |-> {[bb |-> bb, ib |-> ib, v |-> Bounded(Len(built), Len(ins), bb, ib)] : bb \in BOOLEAN, ib \in BOOLEAN},
      box |-> IF Len(All) = 0 THEN <<>> ELSE <<Act(BoxMin(All)), Act(BoxMax(All))>>,
-     ks |-> Ks, rs |-> Rs,
+     ks |-> Ks, rs |-> Rs, rsq |-> [i \in DOMAIN Rs |-> IsSquare(Rs[i])],
      qs |-> {QueryRec(q) : q \in Queries}]))
 =============================================================================
